@@ -14,6 +14,9 @@ pub enum IterOp {
     Next,
     NextBack,
     Len,
+    /// `nth(n)`: skips n elements, yields the next one
+    Nth(u8),
+    NthBack(u8),
 }
 
 #[derive(Clone, Copy, Debug, PartialEq, Eq, Hash, Serialize, Deserialize)]
@@ -71,6 +74,36 @@ fn run_tree_history(mut it: Box<dyn DynIter + '_>, s: &[u128], c: &IterCase, who
                 note("iter.len", step as u128, 0, 0);
                 let g = it.len();
                 ensure!(g == model.len(), "{who}: step {step}: len() = {g}, expected {}", model.len());
+                let (lo, hi) = it.size_hint();
+                ensure!(lo <= model.len() && hi.map_or(true, |h| h >= model.len()), "{who}: step {step}: size_hint() = ({lo}, {:?}) with {} elements left", hi, model.len());
+            }
+            IterOp::Nth(n) => {
+                note("iter.nth", step as u128, n as u128, 0);
+                let g = it.nth(n as usize);
+                for _ in 0..(n as usize).min(model.len()) {
+                    model.pop_front();
+                }
+                let e = model.pop_front();
+                ensure!(g == e, "{who}: step {step}: nth({n}) = {:?}, expected {:?} ({} left)", g, e, model.len());
+                saw_next = true;
+                if e.is_none() {
+                    if exhausted_front { after_exhaustion = true; }
+                    exhausted_front = true;
+                }
+            }
+            IterOp::NthBack(n) => {
+                note("iter.nth_back", step as u128, n as u128, 0);
+                let g = it.nth_back(n as usize);
+                for _ in 0..(n as usize).min(model.len()) {
+                    model.pop_back();
+                }
+                let e = model.pop_back();
+                ensure!(g == e, "{who}: step {step}: nth_back({n}) = {:?}, expected {:?} ({} left)", g, e, model.len());
+                if saw_next { saw_back_after_next = true; }
+                if e.is_none() {
+                    if exhausted_back { after_exhaustion = true; }
+                    exhausted_back = true;
+                }
             }
         }
         // len is checked after every step as well
@@ -95,6 +128,45 @@ fn run_tree_history(mut it: Box<dyn DynIter + '_>, s: &[u128], c: &IterCase, who
         apply(if j % 3 == 2 { IterOp::NextBack } else if j % 3 == 1 { IterOp::Len } else { IterOp::Next }, &mut it, &mut model)?;
     }
     Ok((saw_back_after_next, after_exhaustion))
+}
+
+/// provided adapter methods (`nth`, `skip`, `step_by`, `last`, `count`) on a single-ended iterator
+/// must behave as the default implementations do on the indexed sequence
+fn check_adapters<'a, X: PartialEq + Copy + std::fmt::Debug>(mk: &dyn Fn() -> Box<dyn Iterator<Item = X> + 'a>, e: &[X], seed: u64, who: &str, ctx: &mut Ctx) -> CheckResult {
+    let n = e.len();
+    let mut r = crate::util::Rng::new(seed);
+    let mut ks = vec![0usize, 1, 2, n.saturating_sub(1), n, n + 1, n + 7, 2 * n + 3];
+    for _ in 0..4 {
+        ks.push(r.below_usize(n + 2));
+    }
+    for &k in &ks {
+        note("iter.nth", k as u128, 0, 0);
+        let mut it = mk();
+        let g = it.nth(k);
+        ensure!(g == e.get(k).copied(), "{who}: nth({k}) = {:?}, expected {:?} (n = {n})", g, e.get(k));
+        // continuing after nth
+        let g2 = it.next();
+        let e2 = if k < n { e.get(k + 1).copied() } else { None };
+        ensure!(g2 == e2, "{who}: next() after nth({k}) = {:?}, expected {:?} (n = {n})", g2, e2);
+        note("iter.skip", k as u128, 0, 0);
+        let got: Vec<X> = mk().skip(k).take(3).collect();
+        let exp: Vec<X> = e.iter().copied().skip(k).take(3).collect();
+        ensure!(got == exp, "{who}: skip({k}) yields {:?}.., expected {:?}.. (n = {n})", got, exp);
+        ctx.q();
+    }
+    for s in [1usize, 2, 3, 4, 7, 64, n.max(1), n + 1, 1 + r.below_usize(n + 1)] {
+        note("iter.step_by", s as u128, 0, 0);
+        let got: Vec<X> = mk().step_by(s).take(n / s + 6).collect();
+        let exp: Vec<X> = e.iter().copied().step_by(s).collect();
+        ensure!(got == exp, "{who}: step_by({s}) yields {} items (first difference at {:?}), expected {} (n = {n})", got.len(), got.iter().zip(exp.iter()).position(|(a, b)| a != b), exp.len());
+        ctx.q();
+    }
+    if n <= 100_000 {
+        note("iter.count/last", 0, 0, 0);
+        ensure!(mk().count() == n, "{who}: count() = {}, expected {n}", mk().count());
+        ensure!(mk().last() == e.last().copied(), "{who}: last() = {:?}, expected {:?}", mk().last(), e.last());
+    }
+    Ok(())
 }
 
 /// single-ended exact-size iterator over bits
@@ -122,7 +194,8 @@ impl Prop for C12 {
     type Case = IterCase;
     fn id(&self) -> &'static str { "C12" }
     fn strategy(&self, tier: Tier, _b: &str) -> BoxedStrategy<IterCase> {
-        let op = prop_oneof![4 => Just(IterOp::Next), 3 => Just(IterOp::NextBack), 1 => Just(IterOp::Len)];
+        let op = prop_oneof![6 => Just(IterOp::Next), 5 => Just(IterOp::NextBack), 2 => Just(IterOp::Len),
+            1 => prop_oneof![0u8..4, any::<u8>()].prop_map(IterOp::Nth), 1 => prop_oneof![0u8..4, any::<u8>()].prop_map(IterOp::NthBack)];
         let hist = prop_oneof![
             3 => proptest::collection::vec(op.clone(), 0..40),
             2 => proptest::collection::vec(op.clone(), 0..600),
@@ -185,6 +258,17 @@ impl Prop for C12 {
                 if let Some(it) = bv.clone().into_iter() {
                     check_exact_bits(it, &m.b, &format!("{who} into_iter()"), ctx)?;
                 }
+                let seed = c.base.plan_seed();
+                if bv.iter().is_some() {
+                    check_adapters(&|| -> Box<dyn Iterator<Item = bool> + '_> { Box::new(bv.iter().unwrap()) }, &m.b, seed, &format!("{who} iter()"), ctx)?;
+                }
+                if bv.ones().is_some() && m.n() <= 200_000 {
+                    check_adapters(&|| bv.ones().unwrap(), &m.ones, seed ^ 1, &format!("{who} ones()"), ctx)?;
+                    check_adapters(&|| bv.zeros().unwrap(), &m.zeros, seed ^ 2, &format!("{who} zeros()"), ctx)?;
+                }
+                if bv.clone().into_iter().is_some() && m.n() <= 20_000 {
+                    check_adapters(&|| -> Box<dyn Iterator<Item = bool> + '_> { Box::new(bv.clone().into_iter().unwrap()) }, &m.b, seed ^ 3, &format!("{who} into_iter()"), ctx)?;
+                }
             }
             AnyVal::Quad(qv, m) => {
                 ctx.nontrivial = m.n() >= 3;
@@ -197,6 +281,12 @@ impl Prop for C12 {
                     for _ in 0..12 {
                         ensure!(it.next().is_none(), "{who}: {name} yields an item after returning None");
                     }
+                }
+                let seed = c.base.plan_seed();
+                check_adapters(&|| qv.iter(), &m.q, seed, &format!("{who} iter()"), ctx)?;
+                check_adapters(&|| qv.ref_into_iter(), &m.q, seed ^ 1, &format!("{who} (&v).into_iter()"), ctx)?;
+                if m.n() <= 20_000 {
+                    check_adapters(&|| -> Box<dyn Iterator<Item = u8> + '_> { qv.clone().into_iter() }, &m.q, seed ^ 2, &format!("{who} into_iter()"), ctx)?;
                 }
             }
         }
